@@ -376,7 +376,7 @@ def c12_ensure(R):
         if isinstance(n, ast.If) and "UNSAT" in ast.unparse(n.test):
             body = n.body[0]
             R.check(
-                isinstance(body, ast.Return) and ast.unparse(body.value) in ("satness", "extra_solver_satness"),
+                isinstance(body, ast.Return) and isinstance(n.test, ast.Compare) and body.value is not None and ast.unparse(body.value) == ast.unparse(n.test.left),
                 m,
                 n,
                 "a child's UNSAT/UNKNOWN answer is returned as is",
@@ -652,8 +652,14 @@ def c13_unsafe(R):
     for call in _calls(sol):
         if isinstance(call.func, ast.Attribute) and call.func.attr == "_add_solve_result":
             gs = [ast.unparse(t) for t, pol in guards.guards_of(call) if pol]
+            answers = [
+                st.targets[0].id
+                for st in walk_no_nested(sol)
+                if isinstance(st, ast.Assign) and isinstance(st.targets[0], ast.Name) and isinstance(st.value, ast.Call)
+                and isinstance(st.value.func, ast.Attribute) and st.value.func.attr == "solution"
+            ]
             R.check(
-                "r" in gs,
+                any(a in gs for a in answers),
                 m,
                 call,
                 "solution(): replacement only when the answer was True",
@@ -683,26 +689,32 @@ def c13_unsafe(R):
 def c13_polarity(R):
     tree = R.tree
     m = tree.mod(RF)
-    fn = tree.func(RF, "ReplacementFrontend._add")
+    # single-assignment locals are replaced by what they stand for (`rc = c`, `rold = self._replacement(old)`), so the
+    # arms read in terms of the loop variable whatever the intermediates are called
+    fn = util.resolve_locals(tree.func(RF, "ReplacementFrontend._add"))
+    loops = [st for st in walk_no_nested(fn) if isinstance(st, ast.For) and ast.unparse(st.iter) == "constraints" and isinstance(st.target, ast.Name)]
+    R.need(len(loops) == 1, "ReplacementFrontend._add: loop over the added constraints not found")
+    L = loops[0].target.id
     found_not = found_eq = found_vsa = False
     for call in _calls(fn):
         if not (isinstance(call.func, ast.Attribute) and call.func.attr == "add_replacement"):
             continue
         gs = [(ast.unparse(t), pol) for t, pol in guards.guards_of(call)]
         texts = [t for t, pol in gs if pol]
-        if any(t == "rc.op == 'Not'" for t in texts):
+        if any(t == f"{L}.op == 'Not'" for t in texts):
             found_not = True
             a0, a1 = call.args[0], call.args[1]
             R.check(
-                ast.unparse(a0) in ("c.args[0]", "rc.args[0]") and (dotted(a1.func) if isinstance(a1, ast.Call) else "") in ("claripy.false", "false"),
+                ast.unparse(a0) == f"{L}.args[0]" and (dotted(a1.func) if isinstance(a1, ast.Call) else "") in ("claripy.false", "false"),
                 m,
                 call,
                 "Not(b) constraint: b := false",
                 f"Not(b) constraint replaces `{norm(a0)}` by `{norm(a1)}`; expected the negated operand := false",
+                construct="_add: Not arm",
             )
-        elif any("rc.op == '__eq__'" in t for t in texts):
+        elif any(f"{L}.op == '__eq__'" in t for t in texts):
             found_eq = True
-            xor = any("rc.args[0].symbolic ^ rc.args[1].symbolic" in t for t in texts)
+            xor = any(t in (f"{L}.args[0].symbolic ^ {L}.args[1].symbolic", f"{L}.args[1].symbolic ^ {L}.args[0].symbolic", f"{L}.args[0].symbolic != {L}.args[1].symbolic") for t in texts)
             R.check(
                 xor,
                 m,
@@ -710,52 +722,67 @@ def c13_polarity(R):
                 "equality arm requires exactly one symbolic side",
                 "equality arm does not require exactly one symbolic side (a symbolic==symbolic equality would "
                 "replace one variable by another expression)",
+                construct="_add: equality arm guard",
             )
+            pair = [ast.unparse(a) for a in call.args[:2]]
+            unpack = [
+                st
+                for st in walk_no_nested(fn)
+                if isinstance(st, ast.Assign) and isinstance(st.targets[0], ast.Tuple) and [ast.unparse(e) for e in st.targets[0].elts] == pair
+            ]
             R.check(
-                [ast.unparse(a) for a in call.args[:2]] == ["old", "new"],
+                len(unpack) == 1 and all(isinstance(a, ast.Name) for a in call.args[:2]),
                 m,
                 call,
-                "equality arm: add_replacement(old, new)",
-                f"equality arm calls add_replacement({', '.join(ast.unparse(a) for a in call.args[:2])})",
+                "equality arm: add_replacement(<symbolic side>, <concrete side>)",
+                f"equality arm calls add_replacement({', '.join(pair)}) with values that are not unpacked from the two sides",
+                construct="_add: equality arm call",
             )
-            # direction of the unpacking
-            for st in walk_no_nested(fn):
-                if (
-                    isinstance(st, ast.Assign)
-                    and isinstance(st.targets[0], ast.Tuple)
-                    and [ast.unparse(e) for e in st.targets[0].elts] == ["old", "new"]
-                    and isinstance(st.value, ast.IfExp)
-                ):
-                    v = st.value
-                    R.check(
-                        ast.unparse(v.test) == "rc.args[0].symbolic"
-                        and ast.unparse(v.body) == "rc.args"
-                        and ast.unparse(v.orelse) == "rc.args[::-1]",
-                        m,
-                        st,
-                        "the symbolic side is the one replaced, the concrete side is the replacement",
-                        f"direction of the equality replacement is `{norm(v)}`: the concrete side would be "
-                        f"replaced by the symbolic one",
-                    )
-        elif ("satisfiable", False) in gs:
-            a1 = call.args[1]
+            for st in unpack:
+                v = util.positive_ifs(ast.Module(body=[st], type_ignores=[])).body[0].value if isinstance(st.value, ast.IfExp) else st.value
+                R.check(
+                    isinstance(v, ast.IfExp)
+                    and ast.unparse(v.test) == f"{L}.args[0].symbolic"
+                    and ast.unparse(v.body) == f"{L}.args"
+                    and ast.unparse(v.orelse) == f"{L}.args[::-1]",
+                    m,
+                    st,
+                    "the symbolic side is the one replaced, the concrete side is the replacement",
+                    f"direction of the equality replacement is `{norm(st.value)}`: the concrete side would be "
+                    f"replaced by the symbolic one",
+                    construct="_add: equality arm direction",
+                )
+        elif any(pol is False and isinstance(t_, ast.Name) for t_, pol in guards.guards_of(call)) and any("constraint_to_si" in ast.unparse(x) for x in ast.walk(fn)) and len(call.args) == 2 and (dotted(call.args[1].func) if isinstance(call.args[1], ast.Call) else "") in ("claripy.false", "false"):
+            # `if not <sat flag of constraint_to_si>: add_replacement(constraint, false)`
             R.check(
-                ast.unparse(call.args[0]) == "rc" and (dotted(a1.func) if isinstance(a1, ast.Call) else "") in ("claripy.false", "false"),
+                ast.unparse(call.args[0]) == L,
                 m,
                 call,
                 "a constraint VSA finds unsatisfiable is replaced by false",
-                f"unsatisfiable constraint replaced by `{norm(a1)}`",
+                f"`{norm(call.args[0])}` (not the constraint) is replaced by false when VSA finds the constraint unsatisfiable",
+                construct="_add: VSA unsat arm",
             )
-        elif any(t == "self._complex_auto_replace" or ("_complex_auto_replace" in t) for t, pol in gs):
+        elif any("_complex_auto_replace" in t for t, pol in gs):
+            inner = None
+            p_ = call
+            while p_ is not None and p_ is not fn:
+                p_ = getattr(p_, "_parent", None)
+                if isinstance(p_, ast.For) and isinstance(p_.target, ast.Tuple) and len(p_.target.elts) == 2:
+                    inner = p_
+                    break
+            if inner is None:
+                continue
             found_vsa = True
+            o_, n_ = (ast.unparse(e) for e in inner.target.elts)
             a1 = call.args[1]
             R.check(
-                isinstance(a1, ast.Call) and isinstance(a1.func, ast.Attribute) and a1.func.attr == "intersection"
-                and ast.unparse(a1.func.value) == "rold" and ast.unparse(a1.args[0]) == "new",
+                ast.unparse(call.args[0]) == o_ and ast.unparse(a1) == f"self._replacement({o_}).intersection({n_})",
                 m,
                 call,
                 "VSA bound is intersected into the current replacement of the expression",
-                f"VSA bound is combined as `{norm(a1)}`; it must be rold.intersection(new)",
+                f"VSA bound is combined as `add_replacement({norm(call.args[0])}, {norm(a1)})`; it must intersect the "
+                f"current replacement of the bounded expression with the new bound",
+                construct="_add: VSA bound arm",
             )
     R.need(found_not and found_eq and found_vsa, "auto-replacement arms not found in ReplacementFrontend._add")
     # the constraints themselves always reach the inner frontend
@@ -929,8 +956,14 @@ def c15_merge(R):
         f"option built as `{inner}`: it must conjoin the condition with that solver's constraints",
     )
     ors = [c for s in noanc for c in ast.walk(s) if isinstance(c, ast.Call) and dotted(c.func) in ("Or", "claripy.Or")]
+    # the list the loop appends each And(...) to is the one the Or ranges over
+    appended = [
+        ast.unparse(c.func.value)
+        for c in ast.walk(loop)
+        if isinstance(c, ast.Call) and isinstance(c.func, ast.Attribute) and c.func.attr == "append" and c.args and any(a is ands[0] for a in ast.walk(c.args[0]))
+    ]
     R.check(
-        len(ors) == 1 and ast.unparse(ors[0]) == "Or(*options)",
+        len(ors) == 1 and len(appended) == 1 and len(ors[0].args) == 1 and isinstance(ors[0].args[0], ast.Starred) and ast.unparse(ors[0].args[0].value) == appended[0],
         m,
         top[0],
         "the merged constraint is the disjunction of the options",
@@ -964,8 +997,10 @@ def c15_merge(R):
         len(calls) == 1
         and len(calls[0].args) == 2
         and ast.unparse(calls[0].args[1]) == "merge_conditions"
-        and ast.unparse(calls[0].func.value) == "combined_noncommons[0]"
-        and ast.unparse(calls[0].args[0]) == "combined_noncommons[1:]",
+        and isinstance(calls[0].func.value, ast.Subscript)
+        and isinstance(calls[0].func.value.value, ast.Name)
+        and ast.unparse(calls[0].func.value.slice) == "0"
+        and ast.unparse(calls[0].args[0]) == f"{calls[0].func.value.value.id}[1:]",
         tree.mod(CO),
         cmg,
         "composite merge: non-common parts merged pairwise in solver order with the same conditions",
@@ -974,15 +1009,16 @@ def c15_merge(R):
     )
     if len(calls) == 1:
         facts = [ast.unparse(t) for t, pol in guards.guards_of(calls[0])]
+        parts = calls[0].func.value.value.id if isinstance(calls[0].func.value, ast.Subscript) and isinstance(calls[0].func.value.value, ast.Name) else "?"
         R.check(
-            all(f in ("len(combined_noncommons)", "combined_noncommons", "common_ancestor is not None") for f in facts),
+            all(f in (f"len({parts})", parts, "common_ancestor is not None") for f in facts),
             tree.mod(CO),
             calls[0],
             "the merge conditions are applied whenever there is any input (even if all children are shared)",
             f"the noncommon merge (the only place the merge conditions are added) runs only under {facts}: when every "
             f"child is shared the Or of the conditions is never added",
         )
-    lst = [n for n in walk_no_nested(cmg) if isinstance(n, ast.ListComp) and "cs._solver_list" in ast.unparse(n)]
+    lst = [n for n in walk_no_nested(cmg) if isinstance(n, ast.ListComp) and "._solver_list" in ast.unparse(n)]
     ok = any(ast.unparse(n.generators[-1].iter) in ("[self, *others]", "[self] + others") for n in lst)
     R.check(
         ok,
@@ -1033,8 +1069,10 @@ def c15_combine(R):
         loop is not None
         and "independent_constraints()" in ast.unparse(loop.iter)
         and "self.blank_copy()" in t
+        and isinstance(loop.target, ast.Tuple)
+        and len(loop.target.elts) == 2
         and any(
-            isinstance(c, ast.Call) and isinstance(c.func, ast.Attribute) and c.func.attr == "add" and ast.unparse(c.args[0]) == "c_list"
+            isinstance(c, ast.Call) and isinstance(c.func, ast.Attribute) and c.func.attr == "add" and c.args and ast.unparse(c.args[0]) == ast.unparse(loop.target.elts[1])
             for c in ast.walk(loop)
         ),
         m,
@@ -1065,8 +1103,12 @@ def c15_combine(R):
     # _split_constraints: every conjunct lands in exactly one group: And-flattening + CONCRETE group
     sc = tree.func(CF, "ConstrainedFrontend._split_constraints")
     t = ast.unparse(sc)
+    Fs = util.Frags(sc)
     R.check(
-        "i.op == 'And'" in t and "concrete_constraints.append(s)" in t and "'CONCRETE'" in t,
+        Fs.has("for i in constraints:\n    splitted.extend(list(i.args) if i.op == 'And' else [i])")
+        and Fs.has("if len(connected_variables) == 0:\n    concrete_constraints.append(s)")
+        and Fs.has("connected_variables = set(s.variables)")
+        and "'CONCRETE'" in t,
         m,
         sc,
         "_split_constraints flattens And and keeps variable-free conjuncts in a CONCRETE group",
@@ -1077,7 +1119,10 @@ def c15_combine(R):
     cb = tree.func(MC, "ModelCacheMixin.combine")
     upd = [c for c in _calls(cb) if isinstance(c.func, ast.Attribute) and c.func.attr == "update" and "_models" in ast.unparse(c.func.value)]
     R.need(len(upd) == 1, "ModelCacheMixin.combine: model carry-over not found")
-    facts = [(ast.unparse(t), pol) for t, pol in guards.guards_of(upd[0])]
+    Fc = util.Frags(cb)
+    Fc.has("vars_count = len(self.variables) + sum((len(s.variables) for s in others))")
+    Fc.has("all_vars = self.variables.union(*[s.variables for s in others])")
+    facts = [(Fc.canon(t), pol) for t, pol in guards.guards_of(upd[0])]
     R.check(
         ("vars_count != len(all_vars)", False) in facts,
         mm,
@@ -1087,15 +1132,14 @@ def c15_combine(R):
         f"contains assignments that satisfy neither side",
     )
     R.check(
-        any("len(self._models) == 0" in t and not pol for t, pol in facts) or any("len(o._models) == 0" in t for t, pol in facts),
+        any("len(self._models) == 0" in t and not pol for t, pol in facts) and any("._models) == 0 for " in t and t.startswith("any(") and not pol for t, pol in facts),
         mm,
         upd[0],
         "models are combined only when every side has some",
         "model carry-over no longer requires every side to have models",
     )
-    vc = [n for n in walk_no_nested(cb) if isinstance(n, ast.Assign) and ast.unparse(n.targets[0]) == "vars_count"]
     R.check(
-        vc and "len(self.variables)" in ast.unparse(vc[0].value) and "others" in ast.unparse(vc[0].value),
+        Fc.code("vars_count") in util.local_names(cb) and Fc.has("vars_count = len(self.variables) + sum((len(s.variables) for s in others))"),
         mm,
         cb,
         "disjointness counts self's and every other's variables",
@@ -1103,9 +1147,8 @@ def c15_combine(R):
         construct="ModelCacheMixin.combine vars_count",
     )
     sp2 = tree.func(MC, "ModelCacheMixin.split")
-    t = ast.unparse(sp2)
     R.check(
-        "m.filter(r.variables)" in t and "self._models" in t,
+        util.Frags(sp2).all("results = super().split()", "for r in results:\n    r._models = {m.filter(r.variables) for m in self._models}", "return results"),
         mm,
         sp2,
         "split(): each part inherits the cached models restricted to its own variables",
